@@ -8,7 +8,7 @@ TB = ("Trusted: Lean 4.33 kernel; axioms ⊆ {propext, Classical.choice, Quot.so
 CHECKS = {
  'C01': dict(cat='translation_validation', ref='DESIGN.md §5 C01',
    text="Every explored design's REAL emitted Verilog is parsed and executed under a Lean formalisation of IEEE 1364 (expression sizing/signedness, continuous assigns to fixpoint, non-blocking updates, initial values, hierarchy) and compared from power-up, cycle by cycle, on every top-level output with the real simulator. The universally quantified part is proved in Lean: for every inlinable primitive the emitted expression form equals the Python leaf's landed value for ALL operand/result widths and values, and the emitted register body queues exactly Reg.clock's rule for controls of any width. Design-level theorem for FLAT designs (14 primitive kinds + Reg, any netlist meeting an explicit well-formedness predicate, any text order of the assigns): settled Verilog store = simulator model's propagateAll on every net, one cycle = clk 1, power-up = initC, hence agreement after every clk of any history, stated on the shipped interpreter (Props/C01Flat). The link to the REAL TEXT is proved too (mkSim_shipInv / text_run): for every flat source description S that passes the executable check S.check, the Verilog interpreter run on the text S.emit agrees with the simulator model on every net after every clk of any history; per design the harness imports S from the live circuit and the driver decides `parsed real text = S.emit` syntactically (derived DecidableEq), so for covered designs (19 primitive kinds + Reg; 49/80 of the random plan stream, all of the dedicated flat stream) nothing behavioural is left to trust. Deeper hierarchy, module sharing, multi-assign/multi-leaf primitives (Bits*, Nand2/Nor2/Xor2, Equal*), Div/Mod, gated or derived clocks and transpiled bodies are validated per design, not proved for all designs.",
-   note=TB + "the formal reading of IEEE 1364-2005 in lean/Py4hwV/Verilog is ours alone (no Verilog simulator installed); value-level x; unsized literals 32-bit signed; gated/derived clocks not explored; division/modulo by zero excluded.",
+   note=TB + "the formal reading of IEEE 1364-2005 in lean/Py4hwV/Verilog is ours alone (no Verilog simulator installed); value-level x; unsized literals 32-bit signed; hand-written memory bodies (reg arrays, attribute instances) are not executed (parse/well-formedness only, C03); gated clocks without a wire are refused by the generator, derived clocks are a listed finding; division/modulo by zero excluded.",
    tech="translation validation against a Lean-formalised Verilog semantics + Lean proofs of per-primitive inline soundness and the register body"),
  'C04': dict(cat='proof', ref='DESIGN.md §5 C04',
    text="Literal Lean model of Simulator.topologicalSort (Net/Sched) with theorems: whatever the sorter returns is a permutation that strictly respects every dependency (any pass limit, any instantiation order); every combinational cycle incl. self-loops is rejected; the swap sorter TERMINATES on every acyclic netlist within n(n-1)/2+1 passes (potential = number of rank inversions), hence with the code's limit max(1000, n+1) every acyclic netlist of at most 45 leaves is accepted and acceptance ⇔ acyclic there; over the simulator model, evaluating stateless leaves in any edge-respecting order reaches the unique fixpoint, two orders agree, propagateAll is idempotent. NOT proved: acceptance of acyclic netlists with more than 45 leaves under the code's limit (needs the ≤ n passes conjecture; explored exhaustively on all digraphs with ≤ 4 leaves, sampled to 6, hill-climbed to 14).",
